@@ -72,6 +72,83 @@ PAIR_SCALES = [(1e-6 * np.exp(0.7j), 1e-6), (1e6, 1e-6 * np.exp(2.1j)), (1e-6, 1
 
 
 # ---------------------------------------------------------------------------------------------
+# the indicators are functions of the VALUES of their arguments: every call this check makes goes through G, which compares every
+# array argument (the very object handed over, and the array it is a view of) before / after the call: bytes, dtype, shape, strides
+
+class _Pure:
+    def __init__(self):
+        self.t = None
+        self.case = None
+        self.n = dict.fromkeys(("MAC", "MPC", "MPD", "MCF", "MSF"), 0)
+
+    def bind(self, t, case):
+        if t is not self.t:
+            self.flush()
+        self.t, self.case = t, case
+
+    def flush(self):
+        """calls with all arguments unchanged, counted since the last flush -> outcome counters of the bound tally"""
+        for ind, n in self.n.items():
+            if n and self.t is not None:
+                self.t.outcomes[f"purity:{ind}:arguments-unchanged"] += n
+            self.n[ind] = 0
+
+    def _run(self, ind, f, args):
+        before = [(a.tobytes(), a.dtype, a.shape, a.strides, None if a.base is None else np.asarray(a.base).tobytes()) for a in args]
+        try:
+            return f(*args)
+        finally:
+            clean = True
+            k = 0
+            for a in args:
+                s = before[k]
+                if (a.tobytes() != s[0] or a.dtype != s[1] or a.shape != s[2] or a.strides != s[3]
+                        or (s[4] is not None and (a.base is None or np.asarray(a.base).tobytes() != s[4]))):
+                    clean = False
+                    self._report(ind, k, a, s)
+                k += 1
+            if clean:
+                self.n[ind] += 1
+            else:
+                self.t.outcomes[f"BAD:{ind}:argument-modified"] += 1
+
+    def _report(self, ind, k, a, before):
+        now = (a.tobytes(), a.dtype, a.shape, a.strides)
+        if now[1:4] != before[1:4]:
+            what = f"dtype/shape/strides {before[1:4]} -> {now[1:4]}"
+        elif now[0] != before[0]:
+            old = np.frombuffer(before[0], dtype=before[1]).reshape(before[2])
+            what = f"values {old.ravel().tolist()[:4]} -> {np.asarray(a).ravel().tolist()[:4]}"
+        else:
+            what = "the array it is a view of was written to (outside the view)"
+        lay = "view" if before[4] is not None else "own-array"
+        c = dict(self.case or {})
+        c["purity"] = {"indicator": ind, "argument": k, "dtype": str(before[1]), "shape": list(before[2])}
+        self.t.violation(f"{ind}:argument-modified:arg{k}:{before[1]}:{len(before[2])}-D:{lay}",
+                         f"gen.{ind} changed its argument #{k} ({before[1]} array of shape {before[2]}, {lay}) in place: {what}; "
+                         f"an indicator is a function of the values of a shape, the caller's array must be left as it was", c)
+
+    def MAC(self, x, a):
+        return self._run("MAC", gen.MAC, (x, a))
+
+    def MSF(self, x, a):
+        return self._run("MSF", gen.MSF, (x, a))
+
+    def MPC(self, x):
+        return self._run("MPC", gen.MPC, (x,))
+
+    def MPD(self, x):
+        return self._run("MPD", gen.MPD, (x,))
+
+    def MCF(self, x):
+        return self._run("MCF", gen.MCF, (x,))
+
+
+G = _Pure()
+INDS = ["MAC", "MPC", "MPD", "MCF", "MSF"]
+
+
+# ---------------------------------------------------------------------------------------------
 # vectors
 
 def build(seed, fam, spec):
@@ -151,6 +228,19 @@ def scalar(x):
     return a.ravel()[0]
 
 
+def real_value(r):
+    """float value of a library result that is one finite real number (a complex type with |imag| <= 1e-12 counts), else None"""
+    r = scalar(r)
+    if r is None:
+        return None
+    if np.iscomplexobj(r):
+        if abs(r.imag) > SLACK:
+            return None
+        r = r.real
+    r = float(r)
+    return r if np.isfinite(r) else None
+
+
 def variants_of(phi0):
     """(label, scale index, normalised?, vector). Index -1 = the untouched vector."""
     out = [(-1, False, phi0)]
@@ -159,6 +249,73 @@ def variants_of(phi0):
         out.append((i, False, p))
         out.append((i, True, p / p[int(np.argmax(np.abs(p)))]))
     return out
+
+
+# ---------------------------------------------------------------------------------------------
+# sequences of indicator calls on the SAME array objects: v (the shape), a (another shape) and w = c v, all three built BEFORE the
+# first call; every ordered tuple of indicators is called one after the other on these objects and the LAST call is judged against
+# the reference computed from the pristine values (an indicator that leaves anything behind in its argument - a rescaled, conjugated,
+# re-typed shape - shows in the next one: MSF is not scale-invariant, MAC/MSF are not conjugation-invariant in one argument)
+
+def seq_call(ind, v, a, w):
+    if ind == "MAC":
+        return G.MAC(v, a)
+    if ind == "MSF":
+        return G.MSF(v, w)
+    return getattr(G, ind)(v)
+
+
+def seq_c(k, salt):
+    """real factor of the MSF partner for sequence number k (deterministic, rotates through the whole catalogue)"""
+    return REAL_C[(5 * k + salt) % len(REAL_C)]
+
+
+def run_sequences(t, viol, lengths, v0, a0, mk_w, ref, tol, msf_ok, label, salt, ids=None, extra0=None, okkey="seq", fixed_c=None):
+    """v0, a0: pristine arrays (never handed to the library); mk_w(c) -> pristine partner holding c * v0; ref: indicator -> reference
+    value from the pristine values (None = not judged, MSF: filled in with c); tol: indicator -> tolerance (MSF relative)."""
+    k = 0
+    for L in lengths:
+        for seq in itertools.product(INDS, repeat=L):
+            k += 1
+            if "MSF" in seq and not msf_ok:
+                t.skipped_by_guard += 1
+                t.outcomes["seq:skipped(MSF outside its domain)"] += 1
+                continue
+            c = seq_c(k, salt) if fixed_c is None else fixed_c
+            v, a, w = v0.copy(), a0.copy(), mk_w(c)
+            name = ">".join(seq)
+            extra = dict(extra0 or {})
+            extra.update({"sequence": list(seq), "form": label, "c": c})
+            t.transitions += 1
+            if ids is not None:
+                t.nontrivial.add(ids + k)
+            last = seq[-1]
+            r = None
+            try:
+                for ind in seq:
+                    t.evaluations += 1
+                    r = seq_call(ind, v, a, w)
+            except Exception as e:
+                viol(ind, f"raises-{type(e).__name__}", f"gen.{ind} raised {type(e).__name__}: {e} in the sequence {name} on the same arrays", extra)
+                continue
+            want = c if last == "MSF" else ref.get(last)
+            if want is None:
+                t.not_judged += 1
+                continue
+            t.validated += 1
+            rv = real_value(r)
+            ok = rv is not None
+            if ok:
+                e = abs(rv - want) / (abs(want) if last == "MSF" else 1.0)
+                ok = e <= tol[last]
+            if not ok:
+                viol(last, "value-after-" + ">".join(seq[:-1]),
+                     f"gen.{last} = {r!r} as call #{L} of the sequence {name} on the same array objects (v = {np.asarray(v0).tolist()[:6]}, "
+                     f"a = another shape, w = c v with c = {c!r}, all built before the first call); the pristine values give {want!r}; "
+                     f"v is now {np.asarray(v).tolist()[:4]}", extra)
+            else:
+                t.err(f"{okkey}:{last}", e)
+                t.outcomes[f"{okkey}:{name}:ok" if (L == 2 and okkey == "seq") else f"{okkey}:length-{L}:last={last}:ok"] += 1
 
 
 # ---------------------------------------------------------------------------------------------
@@ -171,6 +328,7 @@ def judge_vector(t, seed, fam, spec, vid=None):
     cls, zero = classify(phi0, base, info)
     tag = cls + ("+zero" if zero else "")
     case = {"route": "vector", "seed": seed, "fam": fam, "spec": spec}
+    G.bind(t, case)
     nnz = int(np.count_nonzero(phi0))
     sv = np.linalg.svd(np.c_[phi0.real, phi0.imag], compute_uv=False)
     isotropic = (sv[0] - sv[1]) < 0.05 * sv[0]
@@ -194,8 +352,8 @@ def judge_vector(t, seed, fam, spec, vid=None):
         if vid is not None and nnz >= 2 and si != -1:
             t.nontrivial.add((vid << 6) | ((si + 1) * 2 + (1 if normed else 0)))
         vals = {}
-        for ind, f in (("MPD", lambda p: gen.MPD(p)), ("MPC", lambda p: gen.MPC(p)), ("MCF", lambda p: gen.MCF(p)),
-                       ("MAC", lambda p: gen.MAC(p, phi0.copy()))):
+        for ind, f in (("MPD", lambda p: G.MPD(p)), ("MPC", lambda p: G.MPC(p)), ("MCF", lambda p: G.MCF(p)),
+                       ("MAC", lambda p: G.MAC(p, phi0.copy()))):
             try:
                 r = scalar(f(phi.copy()))
             except Exception as e:
@@ -231,7 +389,7 @@ def judge_vector(t, seed, fam, spec, vid=None):
                         vals.pop(ind)
             # MAC with the real base vector itself
             try:
-                a = scalar(gen.MAC(phi.copy(), base.astype(complex)))
+                a = scalar(G.MAC(phi.copy(), base.astype(complex)))
                 a = None if a is None else float(np.real(a))
             except Exception as e:
                 a = None
@@ -246,7 +404,7 @@ def judge_vector(t, seed, fam, spec, vid=None):
         for lab, second in (("self", phi.copy()), ("second-arg-small", SCALES[1] * phi0), ("second-arg-large", SCALES[-2] * phi0)):
             t.evaluations += 1
             try:
-                r2 = scalar(gen.MAC(phi.copy(), second))
+                r2 = scalar(G.MAC(phi.copy(), second))
                 r2 = None if r2 is None else float(np.real(r2))
             except Exception as e:
                 viol("MAC", f"raises-{type(e).__name__}", f"gen.MAC raised {type(e).__name__}: {e}", extra)
@@ -283,10 +441,10 @@ def judge_vector(t, seed, fam, spec, vid=None):
     x = phi0.copy()
     other = (SCALES[9] * phi0).copy()
     try:
-        m0 = scalar(gen.MAC(x, other))
+        m0 = scalar(G.MAC(x, other))
         for s_ in (SCALES[2], SCALES[-3]):
             x *= s_
-            m1 = scalar(gen.MAC(x, other))
+            m1 = scalar(G.MAC(x, other))
             t.evaluations += 1
             t.validated += 1
             if m0 is None or m1 is None or not np.isfinite(m1) or abs(float(np.real(m1)) - float(np.real(m0))) > TOL_INV:
@@ -313,7 +471,7 @@ def judge_vector(t, seed, fam, spec, vid=None):
             t.transitions += 1
             extra = {"msf_input": label, "c": c}
             try:
-                r = scalar(gen.MSF(v.copy(), c * v))
+                r = scalar(G.MSF(v.copy(), c * v))
             except Exception as e:
                 viol("MSF", f"raises-{type(e).__name__}", f"gen.MSF raised {type(e).__name__}: {e}", extra)
                 continue
@@ -323,6 +481,33 @@ def judge_vector(t, seed, fam, spec, vid=None):
             else:
                 t.err("MSF:rel", abs(r - c) / abs(c))
                 t.outcomes["MSF:ok:" + ("c<0" if c < 0 else "c>0")] += 1
+    # sequences of calls on the same array objects: all ordered pairs of indicators on the raw shape and on the shape scaled and
+    # normalised to a unit component; all ordered triples on the payload shapes
+    a0 = np.roll(phi0, 1)
+    a0[0] += 3.5 + 0.5j
+    vtv0 = abs(np.sum(phi0 * phi0))
+    msf_ok = bool(vtv0 >= 0.2 * np.sum(np.abs(phi0) ** 2))
+    tol = {"MAC": TOL_INV, "MPC": TOL_INV, "MCF": TOL_INV, "MPD": TOL_MPD, "MSF": 1e-12}
+    p7 = SCALES[7] * phi0
+    forms = [("raw", phi0)]
+    if not (fam == "int-real" and len(phi0) >= 4):
+        forms.append(("unit-normalised", p7 / p7[int(np.argmax(np.abs(p7)))]))
+    for fi, (label, v0) in enumerate(forms):
+        ref = {"MAC": mac_ref(v0, a0), "MCF": mcf_ref(v0)}
+        for ind in ("MPC", "MPD"):
+            if (ind == "MPC" and cls == "constant-base") or (ind == "MPD" and isotropic):
+                continue            # listed known finding / reference direction undefined: value not judged (as above)
+            t.evaluations += 1
+            try:
+                r = real_value(getattr(G, ind)(v0.copy()))
+            except Exception:
+                continue            # reported by the single-call judgements above
+            if r is not None:
+                ref[ind] = r
+        lengths = (2, 3) if (fam in ("pay-real", "pay-cplx") and fi == 0) else (2,)
+        ids = None if vid is None else _CFG.get("seq_off", 0) + vid * 512 + fi * 256
+        run_sequences(t, viol, lengths, v0, a0, lambda c, v0=v0: c * v0, ref, tol, msf_ok, label, len(phi0) + nnz + 7 * fi,
+                      ids if nnz >= 2 else None)
     t.outcomes["vector-judged"] += 1
 
 
@@ -341,18 +526,19 @@ def judge_macsets(t, alpha, n, ix, ia_list, pid_base=None):
     for ia in ia_list:
         A = np.array([vecs[ia // nv], vecs[ia % nv]], complex).T
         case = {"route": "macsets", "alphabet": [str(a) for a in alpha], "n": n, "ix": ix, "ia": ia}
+        G.bind(t, case)
         t.states += 1
         t.transitions += 1
         t.evaluations += 3
         if pid_base is not None and ix != ia:
             t.nontrivial.add(pid_base + ia)
         try:
-            M = np.asarray(gen.MAC(X.copy(), A.copy()))
-            Mt = np.asarray(gen.MAC(A.copy(), X.copy()))
+            M = np.asarray(G.MAC(X.copy(), A.copy()))
+            Mt = np.asarray(G.MAC(A.copy(), X.copy()))
             # rectangular: first shape of X alone (1-D) against the set A, and X against A extended with X's first shape
-            M1 = np.asarray(gen.MAC(X[:, 0].copy(), A.copy()))
+            M1 = np.asarray(G.MAC(X[:, 0].copy(), A.copy()))
             A3 = np.c_[A, X[:, 0]]
-            M3 = np.asarray(gen.MAC(X.copy(), A3))
+            M3 = np.asarray(G.MAC(X.copy(), A3))
         except Exception as e:
             t.violation(f"MAC:raises-{type(e).__name__}:sets", f"gen.MAC raised {type(e).__name__}: {e}", case)
             continue
@@ -361,7 +547,7 @@ def judge_macsets(t, alpha, n, ix, ia_list, pid_base=None):
         for (s1, s2) in PAIR_SCALES:
             t.evaluations += 1
             try:
-                Ms = np.asarray(gen.MAC(X * np.array([s1, np.conj(s1)]), A * np.array([s2, -s2])))
+                Ms = np.asarray(G.MAC(X * np.array([s1, np.conj(s1)]), A * np.array([s2, -s2])))
             except Exception as e:
                 t.violation(f"MAC:raises-{type(e).__name__}:sets", f"gen.MAC raised {type(e).__name__}: {e}", case)
                 continue
@@ -534,6 +720,7 @@ def judge_dtvector(t, seed, fam, spec, did=None):
     constant = bool(np.all(z == z[0]))
     adm = admissible(z)
     case = {"route": "dtype-vector", "seed": seed, "fam": fam, "spec": spec}
+    G.bind(t, case)
     t.states += 1
     t.outcomes["dtype:class:" + ("constant-base" if constant else "collinear" if col else "general")
                + ("+zero" if np.any(z == 0) else "")] += 1
@@ -568,7 +755,7 @@ def judge_dtvector(t, seed, fam, spec, did=None):
             single = d in SINGLE_DT
             extra = {"dtypes": [d], "form": label}
             pu = up(p)
-            for ind, f in (("MPD", gen.MPD), ("MPC", gen.MPC), ("MCF", gen.MCF)):
+            for ind, f in (("MPD", G.MPD), ("MPC", G.MPC), ("MCF", G.MCF)):
                 r = _indicator(t, viol, ind, lambda: f(p.copy()), show(p), extra)
                 if r is None:
                     continue
@@ -625,7 +812,7 @@ def judge_dtvector(t, seed, fam, spec, did=None):
                 orders = [("XA", x, a)] if label == "self" else [("XA", x, a), ("AX", a, x)]
                 for order, p, q in orders:
                     extra = {"dtypes": [dx, da], "form": f"MAC:{label}:{order}"}
-                    r = _indicator(t, viol, "MAC", lambda: gen.MAC(p.copy(), q.copy()), f"({show(p)}, {show(q)})", extra)
+                    r = _indicator(t, viol, "MAC", lambda: G.MAC(p.copy(), q.copy()), f"({show(p)}, {show(q)})", extra)
                     if r is None:
                         continue
                     e = abs(r - want)
@@ -654,7 +841,7 @@ def judge_dtvector(t, seed, fam, spec, did=None):
                     tol = TOL32_MSF if single else 1e-12
                     for order, p, q, want in (("v,cv", x, a, c), ("cv,v", a, x, 1.0 / c)):
                         extra = {"dtypes": [dx, da], "form": f"MSF:{order}", "c": c}
-                        r = _indicator(t, viol, "MSF", lambda: gen.MSF(p.copy(), q.copy()), f"({show(p)}, {show(q)})", extra)
+                        r = _indicator(t, viol, "MSF", lambda: G.MSF(p.copy(), q.copy()), f"({show(p)}, {show(q)})", extra)
                         if r is None:
                             continue
                         e = abs(r - want) / abs(want)
@@ -663,6 +850,36 @@ def judge_dtvector(t, seed, fam, spec, did=None):
                             viol("MSF", "value", f"MSF({show(p)}, {show(q)}) = {r!r}, expected {want!r} (c = {c})", extra)
                         else:
                             good("MSF", [dx, da])
+    # --- sequences of calls on the same array objects of every admissible dtype (table and payload shapes): all ordered pairs of
+    #     indicators, the partner w = 3 v and the other shape a in the same dtype, built before the first call
+    if fam in ("dt-table", "dt-pay"):
+        for d in adm:
+            if d not in admissible(w) or not w.any():
+                t.skipped_by_guard += 1
+                continue
+            p, q = cast(z, d), cast(w, d)
+            pu, qu = up(p), up(q)
+            single = d in SINGLE_DT
+            ref = {"MAC": mac_ref(pu, qu), "MCF": 0.0 if col else mcf_ref(pu)}
+            if col:
+                ref.update(MPC=1.0, MPD=0.0)
+            else:
+                sv = np.linalg.svd(np.c_[pu.real, pu.imag], compute_uv=False)
+                for ind in ("MPC", "MPD"):
+                    if ind == "MPD" and (sv[0] - sv[1]) < 0.05 * sv[0]:
+                        continue
+                    r = _indicator(t, viol, ind, lambda: getattr(G, ind)(pu.copy()), show(pu), {"dtypes": ["complex128"], "form": "sequence-reference"})
+                    if r is not None:
+                        ref[ind] = r
+            if constant:
+                ref.pop("MPC", None)
+            if single:
+                tol = {"MAC": TOL32_INV, "MPC": TOL32_INV, "MCF": TOL32_INV, "MPD": TOL32_MPD, "MSF": TOL32_MSF}
+            else:
+                tol = {"MAC": TOL_INV, "MPC": TOL_COL if col else TOL_INV, "MCF": TOL_COL if col else TOL_INV, "MPD": TOL_MPD, "MSF": 1e-12}
+            msf_ok = bool(vtv >= 0.2 * np.sum(np.abs(z) ** 2))
+            run_sequences(t, viol, (2,), p, q, lambda c, p=p: (3 * p).astype(p.dtype), ref, tol, msf_ok, f"dtype:{d}", 0,
+                          extra0={"dtypes": [d]}, okkey=f"dtype:seq:{dclass(d)[0]}", fixed_c=3)
     t.outcomes["dtype:vector-judged"] += 1
 
 
@@ -701,6 +918,7 @@ def judge_dtsets(t, ix, ia_list, pid_base=None):
     for ia in ia_list:
         A = np.array([DT_POOL[ia // npool], DT_POOL[ia % npool]], complex).T
         case = {"route": "dtype-sets", "ix": ix, "ia": ia}
+        G.bind(t, case)
         ref = np.array([[mac_ref(X[:, i], A[:, j]) for j in range(2)] for i in range(2)])
         k = 0
         for dx in admissible(X):
@@ -715,10 +933,10 @@ def judge_dtsets(t, ix, ia_list, pid_base=None):
                 if pid_base is not None and cls != "double":
                     t.nontrivial.add(pid_base + ia * 36 + k)
                 try:
-                    forms = (("XA", gen.MAC(Xd.copy(), Ad.copy()), ref),
-                             ("AX", gen.MAC(Ad.copy(), Xd.copy()), ref.T),
-                             ("1D-vs-set", gen.MAC(Xd[:, 0].copy(), Ad.copy()), ref[:1]),
-                             ("set-vs-1D", gen.MAC(Xd.copy(), Ad[:, 1].copy()), ref[:, 1:]))
+                    forms = (("XA", G.MAC(Xd.copy(), Ad.copy()), ref),
+                             ("AX", G.MAC(Ad.copy(), Xd.copy()), ref.T),
+                             ("1D-vs-set", G.MAC(Xd[:, 0].copy(), Ad.copy()), ref[:1]),
+                             ("set-vs-1D", G.MAC(Xd.copy(), Ad[:, 1].copy()), ref[:, 1:]))
                 except Exception as e:
                     c = dict(case)
                     c["dtypes"] = [dx, da]
@@ -736,6 +954,7 @@ def judge_dttable(t, seed, n, pid_base=None):
     V = np.round(9 * payload.entries(seed, f"c18/dt/V/{n}", (n, 2), 0.2, 1.0))
     V[n // 3, 0] = 0.0
     case = {"route": "dtype-table", "seed": seed, "n": n}
+    G.bind(t, case)
     k = 0
 
     def one(nm, P, Q, dp, dq):
@@ -746,7 +965,7 @@ def judge_dttable(t, seed, n, pid_base=None):
         Pu, Qu = up(P), up(Q)
         want = np.array([[mac_ref(Pu[:, i], Qu[:, j]) for j in range(Qu.shape[1])] for i in range(Pu.shape[1])])
         try:
-            got = gen.MAC(P.copy(), Q.copy())
+            got = G.MAC(P.copy(), Q.copy())
         except Exception as e:
             c = dict(case)
             c["dtypes"] = [dp, dq]
@@ -769,6 +988,158 @@ def judge_dttable(t, seed, n, pid_base=None):
             if pid_base is not None and dclass(dw, dv)[0] != "double":
                 t.nontrivial.add(pid_base + k)
             one("table:2x2", Vd, cast(V[:, ::-1] + np.array([[1.0, 0.0]]), dw), dv, dw)
+
+
+# ---------------------------------------------------------------------------------------------
+# sequences of indicator calls on the same SETS of shapes (2-D arrays: C order, Fortran order, a strided view into a larger array)
+# and on column views of them: operations on the whole set (MAC(X, A), MCF(X), MSF(X, W)) and on one column view X[:, j]
+# (MAC, MPC, MPD, MCF, MSF), every ordered pair, the second call judged against the reference from the pristine values
+
+SEQ_LAYOUTS = ["C-order", "F-order", "strided-view"]
+SEQ_SET_OPS = ["MAC", "MCF", "MSF", "MAC.col", "MPC.col", "MPD.col", "MCF.col", "MSF.col"]
+SEQ_PAY_NK = [(8, 2), (8, 3), (16, 3), (16, 5), (64, 2), (64, 5)]
+
+
+def seqsets_space():
+    out = [("pool", [i, j]) for i in range(len(DT_POOL)) for j in range(len(DT_POOL))]
+    out += [("pay", [n, k]) for n, k in SEQ_PAY_NK]
+    return [(kind, spec, lay) for kind, spec in out for lay in SEQ_LAYOUTS]
+
+
+def lay_out(M, layout):
+    """A fresh array object holding the values of M in the given memory layout."""
+    if layout == "C-order":
+        return np.array(M, order="C")
+    if layout == "F-order":
+        return np.array(M, order="F")
+    n, k = M.shape
+    big = np.full((2 * n + 1, k + 2), 0.25 - 0.75j)
+    view = big[1::2, 1:1 + k]
+    view[...] = M
+    return view
+
+
+def judge_seqsets(t, seed, kind, spec, layout, sid=None):
+    if kind == "pool":
+        X0 = np.array([DT_POOL[spec[0]], DT_POOL[spec[1]]], complex).T
+    else:
+        n_, k_ = spec
+        X0 = payload.cplx(seed, f"c18/seq/X/{n_}/{k_}", (n_, k_), 0.2, 1.0, phase_spread=0.5)
+    n, k = X0.shape
+    j = k - 1
+    cs = np.array([REAL_C[(3 * i + n + k) % len(REAL_C)] for i in range(k)])
+    W0 = X0 * cs
+    A0 = np.roll(X0, 1, axis=0)[:, ::-1].copy()
+    A0[0] += 3.5 + 0.5j
+    case = {"route": "seq-sets", "seed": seed, "kind": kind, "spec": spec, "layout": layout}
+    G.bind(t, case)
+    t.states += 1
+    # classes from the input
+    dom = [bool(abs(np.sum(X0[:, i] * X0[:, i])) >= 0.2 * np.sum(np.abs(X0[:, i]) ** 2)) for i in range(k)]
+    xj = X0[:, j].copy()
+    sv = np.linalg.svd(np.c_[xj.real, xj.imag], compute_uv=False)
+    iso_j = (sv[0] - sv[1]) < 0.05 * sv[0]
+    const_j = bool(np.all(xj == xj[0]))
+    skip = set()
+    if not all(dom):
+        skip.add("MSF")
+    if not dom[j]:
+        skip.add("MSF.col")
+    ref = {
+        "MAC": np.array([[mac_ref(X0[:, i], A0[:, m]) for m in range(k)] for i in range(k)]),
+        "MCF": np.array([mcf_ref(X0[:, i]) for i in range(k)]),
+        "MSF": cs.copy(),
+        "MAC.col": np.array([[mac_ref(xj, A0[:, m]) for m in range(k)]]),
+        "MCF.col": np.array([mcf_ref(xj)]),
+        "MSF.col": np.array([cs[j]]),
+    }
+    for ind in ("MPC", "MPD"):
+        if (ind == "MPC" and const_j) or (ind == "MPD" and iso_j):
+            continue
+        t.evaluations += 1
+        try:
+            r = real_value(getattr(G, ind)(xj.copy()))
+        except Exception as e:
+            t.violation(f"{ind}:raises-{type(e).__name__}:seq-sets", f"gen.{ind} raised {type(e).__name__}: {e} on {xj.tolist()[:6]}", case)
+            continue
+        if r is not None:
+            ref[ind + ".col"] = np.array([r])
+    tol = {"MAC": TOL_INV, "MPC": TOL_INV, "MCF": TOL_INV, "MPD": TOL_MPD, "MSF": 1e-12}
+
+    def call(op, X, A, W):
+        if op == "MAC":
+            return G.MAC(X, A)
+        if op == "MCF":
+            return G.MCF(X)
+        if op == "MSF":
+            return G.MSF(X, W)
+        ind = op[:3]
+        x = X[:, j]                      # a column view of the caller's set
+        if ind == "MAC":
+            return G.MAC(x, A)
+        if ind == "MSF":
+            return G.MSF(x, W[:, j])
+        return getattr(G, ind)(x)
+
+    kk = 0
+    for op1 in SEQ_SET_OPS:
+        for op2 in SEQ_SET_OPS:
+            kk += 1
+            if op1 in skip or op2 in skip:
+                t.skipped_by_guard += 1
+                t.outcomes["seq-sets:skipped(MSF outside its domain)"] += 1
+                continue
+            X, A, W = lay_out(X0, layout), lay_out(A0, layout), lay_out(W0, layout)
+            t.transitions += 1
+            t.evaluations += 2
+            if sid is not None:
+                t.nontrivial.add(sid + kk)
+            c = dict(case)
+            c["sequence"] = [op1, op2]
+            try:
+                call(op1, X, A, W)
+                got = call(op2, X, A, W)
+            except Exception as e:
+                t.violation(f"{op2[:3]}:raises-{type(e).__name__}:seq-sets:{layout}", f"gen.{op2[:3]} raised {type(e).__name__}: {e} in the sequence {op1}>{op2}", c)
+                continue
+            want = ref.get(op2)
+            if want is None:
+                t.not_judged += 1
+                continue
+            t.validated += 1
+            got = np.atleast_1d(np.asarray(got))
+            if op2 == "MAC.col" and got.ndim == 1:
+                got = got[None, :]
+            ind = op2[:3]
+            if np.iscomplexobj(got) and float(np.max(np.abs(got.imag))) <= SLACK:
+                got = got.real
+            ok = got.shape == want.shape and not np.iscomplexobj(got) and bool(np.all(np.isfinite(got)))
+            if ok:
+                e = float(np.max(np.abs(got - want) / (np.abs(want) if ind == "MSF" else 1.0)))
+                ok = e <= tol[ind]
+            if not ok:
+                t.violation(f"{ind}:value-after-{op1}:seq-sets:{op2}:{layout}",
+                            f"{op2} = {got.tolist()} as the second call of the sequence {op1}>{op2} on the same array objects ({layout} set X of shape "
+                            f"{X0.shape}, A another set, W = X * {cs.tolist()} built before the first call; .col = column view X[:, {j}]); the pristine "
+                            f"values give {want.tolist()}; X[:, {j}] is now {np.asarray(X)[:, j].tolist()[:4]}, was {xj.tolist()[:4]}", c)
+                t.outcomes["BAD:seq-sets"] += 1
+            else:
+                t.err(f"sequence:sets:{ind}", e)
+                t.outcomes[f"seq-sets:{layout}:ok"] += 1
+                t.outcomes[f"seq-sets:first={op1}:ok"] += 1
+                t.outcomes[f"seq-sets:second={op2}:ok"] += 1
+    t.outcomes["seq-sets:judged"] += 1
+
+
+def work_seqsets(item):
+    start, chunk, off = item
+    t = Tally()
+    for i, (kind, spec, lay) in enumerate(chunk):
+        judge_seqsets(t, _CFG["seed"], kind, spec, lay, sid=off + (start + i) * 64)
+        if (start + i) % 41 == 0:
+            t.sample({"route": "seq-sets", "kind": kind, "spec": spec, "layout": lay, "operations": SEQ_SET_OPS, "ordered pairs": len(SEQ_SET_OPS) ** 2})
+    G.flush()
+    return t
 
 
 def dtype_space(thorough):
@@ -806,6 +1177,7 @@ def work_dtype(item):
     else:
         _, n, off = item
         judge_dttable(t, _CFG["seed"], n, off)
+    G.flush()
     return t
 
 
@@ -852,6 +1224,7 @@ def work_vectors(item):
         if (start + k) % 211 == 0:
             phi0, base, info = build(_CFG["seed"], fam, spec)
             t.sample({"fam": fam, "spec": spec, "class": classify(phi0, base, info)[0], "scales": len(SCALES), "variants": 1 + 2 * len(SCALES)})
+    G.flush()
     return t
 
 
@@ -862,6 +1235,7 @@ def work_macsets(item):
         judge_macsets(t, _CFG["alphabets"][ai], n, ix, range(nsets), off + ix * nsets)
         if ix % 997 == 0:
             t.sample({"route": "macsets", "alphabet": [str(a) for a in _CFG["alphabets"][ai]], "n": n, "ix": ix, "A sets": nsets})
+    G.flush()
     return t
 
 
@@ -930,9 +1304,29 @@ def explore(ctx):
                                             "integer table x integer table in all 36 dtype pairs"},
         "single-precision tolerances": {"MAC/MPC/MCF": TOL32_INV, "MPD": TOL32_MPD, "MSF relative": TOL32_MSF},
     }
+    # purity of every call + sequences of calls on the same array objects (same code path in both tiers)
+    off += len(DT_TABLE_N) * 64
+    _CFG["seq_off"] = off
+    off += len(vecs) * 512
+    ssets = seqsets_space()
+    SCH = 6
+    sitems = [(s0, ssets[s0:s0 + SCH], off) for s0 in range(0, len(ssets), SCH)]
+    ctx.bounds["argument purity"] = ("every call of gen.MAC/MPC/MPD/MCF/MSF made by this check (all routes): each array argument, and the array it is a "
+                                     "view of, compared before/after the call: bytes, dtype, shape, strides")
+    ctx.bounds["call sequences"] = {
+        "objects": "v (shape), a (another shape), w = c v, built before the first call and handed to every call of the sequence as the same objects",
+        "indicators": INDS,
+        "vectors": "every vector of the vector route in two forms (raw; scaled by 1e-3 e^{0.7i} and normalised to a unit component): all 25 ordered "
+                   "pairs; payload vectors (raw form) also all 125 ordered triples; the last call is judged",
+        "c": f"rotates through {REAL_C}",
+        "dtype axis": "dt-table and dt-pay shapes in every admissible dtype, all 25 ordered pairs, c = 3",
+        "sets": {"sets": f"all {len(DT_POOL) ** 2} ordered pairs of the pool shapes (3 x 2) and complex payload sets (n, k) in {SEQ_PAY_NK}",
+                 "memory layouts": SEQ_LAYOUTS, "operations": SEQ_SET_OPS, "ordered pairs": len(SEQ_SET_OPS) ** 2, "cases": len(ssets)},
+    }
     ctx.pmap(work_vectors, items, chunksize=1)
     ctx.pmap(work_macsets, mitems, chunksize=1)
     ctx.pmap(work_dtype, ditems, chunksize=1)
+    ctx.pmap(work_seqsets, sitems, chunksize=1)
     ctx.require("class:collinear", "class:collinear+zero", "class:constant-base", "class:general", "class:general+zero",
                 "class:near-collinear", "class:isotropic(MPD invariance not judged)", "MSF:ok:c<0", "MSF:ok:c>0",
                 "MSF:outside-domain", "MAC:same-array-rescaled-in-place:ok", "macsets:ok", "macsets:asymmetric-matrix(orientation observable)", "vector-judged")
@@ -964,6 +1358,9 @@ def replay(case):
         judge_dtsets(t, case["ix"], [case["ia"]])
     elif case.get("route") == "dtype-table":
         judge_dttable(t, case["seed"], case["n"])
+    elif case.get("route") == "seq-sets":
+        judge_seqsets(t, case["seed"], case["kind"], case["spec"], case["layout"])
     else:
         raise ValueError("unknown route")
+    G.flush()
     return t
